@@ -216,7 +216,7 @@ func verifHarness_C10_pool() {
 	n := verifChoose("pool-size", verifParam("maxpool", 2)) + 1
 	role := verifChoose("role", 2) // 0 receiver, 1 establisher
 	maxAttempts := verifParam("attempts", 4)
-	c10 = &c10Env{sessions: map[*yamux.Session]*c10Sess{}, accepts: make(chan int), lisClosed: make(chan struct{}), dialTimeout: make(chan struct{})}
+	c10 = &c10Env{sessions: map[*yamux.Session]*c10Sess{}, accepts: make(chan int, 1), lisClosed: make(chan struct{}), dialTimeout: make(chan struct{})}
 	ctx, cancel := context.WithCancel(context.Background())
 	var listUpdates int
 	var lastList []string
@@ -229,6 +229,10 @@ func verifHarness_C10_pool() {
 	mgrI, err := NewCustomMultiMuxManager(ctx, "verif", builder, nil,
 		[]OnConnectionListUpdate{func(m map[string]session.ManagedMuxSession) {
 			listUpdates++
+			// the listener is handed the table under the manager's lock at every change: at no instant
+			// may it hold more sessions than the configured count (a slot is recycled only after its dead
+			// session has left the table)
+			verifAssert(len(m) <= n, "registered-sessions-never-exceed-the-configured-count")
 			lastList = nil
 			for k := range m {
 				lastList = append(lastList, k)
@@ -250,7 +254,7 @@ func verifHarness_C10_pool() {
 		}
 	}
 	for step := 0; step < maxAttempts && !c10.cancelled; step++ {
-		a := verifChoose("event", 4)
+		a := verifChoose("event", 5)
 		switch a {
 		case 0: // a connection attempt completes with a symbolic outcome chain
 			if c10.attempts == 0 {
@@ -293,6 +297,21 @@ func verifHarness_C10_pool() {
 				verifAssume(false)
 			}
 			verifAction("remote-closes-session")
+			c10.remoteClose(live[verifChoose("which", len(live))])
+		case 4: // the remote end kills a live session while its replacement connection is already waiting
+			var live []*c10Sess
+			for _, cs := range c10.sessList {
+				if !cs.closed {
+					live = append(live, cs)
+				}
+			}
+			if len(live) == 0 || c10.attempts != 0 || len(c10.accepts) != 0 {
+				verifAssume(false) // only with a full pool: nobody may consume the waiting connection early
+			}
+			verifAction("remote-closes-session-with-replacement-waiting")
+			verifReach("replacement-connection-waiting")
+			c10.sessionOutcome, c10.pingOutcome = 0, 0
+			c10.accepts <- 0
 			c10.remoteClose(live[verifChoose("which", len(live))])
 		case 2: // a session is closed locally
 			conns := mgr.GetMuxConnections()
